@@ -24,7 +24,7 @@ def worker_env(extra=None):
     pp = [os.path.join(VERIF, 'harness', 'shims'), os.path.join(VERIF, '.deps'), VERIF]
     env['PYTHONPATH'] = os.pathsep.join(pp)
     env['PYTHONHASHSEED'] = '0'
-    env.setdefault('NUMBA_CACHE_DIR', os.path.join(VERIF, '.cache', 'numba'))
+    env['NUMBA_CACHE_DIR'] = numba_cache_dir()
     env.setdefault('OMP_NUM_THREADS', '1')
     env.setdefault('NUMBA_NUM_THREADS', '1')
     env['MPLBACKEND'] = 'Agg'
@@ -36,6 +36,43 @@ def worker_env(extra=None):
             else:
                 env[k] = v
     return env
+
+
+_nb_dir = None
+
+
+def numba_cache_dir():
+    """numba caches are keyed by the *caller's* file only, so a changed callee in another file would be served stale
+    machine code.  The cache directory is therefore keyed by a hash of every .py source under /repo/TidalPy."""
+    global _nb_dir
+    if _nb_dir is None:
+        h = hashlib.sha256()
+        root = os.path.join(build.REPO, 'TidalPy')
+        for dp, dn, fn in sorted(os.walk(root)):
+            dn[:] = sorted(d for d in dn if d != '__pycache__')
+            for f in sorted(fn):
+                if f.endswith('.py') or f.endswith('.toml') or f.endswith('.so'):
+                    p = os.path.join(dp, f)
+                    h.update(p.encode())
+                    if f.endswith('.so'):
+                        st = os.stat(p)
+                        h.update(f'{st.st_size}:{int(st.st_mtime)}'.encode())
+                    else:
+                        with open(p, 'rb') as fh:
+                            h.update(fh.read())
+        base = os.path.join(VERIF, '.cache', 'numba')
+        _nb_dir = os.path.join(base, h.hexdigest()[:16])
+        os.makedirs(_nb_dir, exist_ok=True)
+        # keep only the 3 most recently used tree caches
+        try:
+            os.utime(_nb_dir)
+            ds = sorted((os.path.join(base, d) for d in os.listdir(base) if os.path.isdir(os.path.join(base, d))), key=os.path.getmtime)
+            for d in ds[:-3]:
+                import shutil
+                shutil.rmtree(d, ignore_errors=True)
+        except OSError:
+            pass
+    return _nb_dir
 
 
 def ensure_deps(log=print):
